@@ -104,6 +104,24 @@ static inline void rt_creation_order(int n, int* order) {
   }
 }
 
+
+// -Dpin=1: fiber number i is created directly on the run queue of kernel thread i % N instead of
+// the creating thread's (-Dpin=2: the placement of every fiber is an enumerated input, N^n cases).
+// The other kernel threads have not run yet when the harness creates its fibers, so the push is
+// race-free, and "a ready fiber that has never run sits in the queue of thread k" is what a
+// fiber_create() executed by any fiber on thread k leaves behind. Every thread serves its own queue
+// before it steals, so with one fiber per kernel thread the pre-emption budget is spent on the
+// object under test instead of on getting the fibers onto different threads.
+static inline fiber_t* rt_create(int i, size_t stk, fiber_run_function_t fn, void* arg) {
+  int pin = fmc_param("pin", 0), n = fmc_param("N", 2);
+  if (!pin) return fiber_create(stk, fn, arg);
+  int t = pin == 2 ? fmc_input(n) : i % n;
+  fiber_t* f = fiber_create_no_sched(stk, fn, arg);
+  if (!f) fmc_fail("rt_create: fiber_create_no_sched failed");
+  fiber_scheduler_schedule(fiber_scheduler_for_thread(t), f);
+  return f;
+}
+
 // force the 1-in-1024 load-balance path on the next plain yield of this thread
 static inline void rt_force_balance(void) { fiber_manager_get()->yield_count = 1023; }
 
